@@ -1,7 +1,7 @@
 """C17 — address quoting and parsing agree; header recipients become the envelope
 (table-agreement clauses only; the round trip over all strings is not decidable here)."""
 from qv.core import AnalysisBroken
-from qv.esp import Engine, Outcome, TOP, fs
+from qv.esp import Engine, Outcome, TOP, fs, ptr_add
 from qv.lib import QHooks
 
 CHARS = frozenset(range(-128, 128))
@@ -37,6 +37,106 @@ def switch_cases(fn, blk):
         if lab and lab.get('k') == 'case' and lab.get('lo') is not None and any(p in {x.id for x in fn.blocks.values()} for p in b.preds):
             pass
     return s
+
+
+def g1v(v):
+    return next(iter(v)) if v is not TOP and v is not None and len(v) == 1 else None
+
+
+class StrHooks(QHooks):
+    """concrete byte strings behind pointers; stralloc objects as (s, len) cells"""
+    def __init__(self):
+        self.returns = []
+        self.events = []
+
+    def tracked_global(self, path):
+        return True
+
+    def precise_arith(self, path):
+        return True
+
+    def rd(self, E, p, n):
+        out = []
+        for i in range(n):
+            q = ptr_add(p, i)
+            b = g1v(E.get(q[1])) if q is not None else None
+            out.append(b if isinstance(b, int) else None)
+        return out
+
+    def cstr(self, E, p):
+        out = []
+        for i in range(64):
+            q = ptr_add(p, i) if isinstance(p, tuple) else None
+            b = g1v(E.get(q[1])) if q is not None else None
+            if not isinstance(b, int):
+                return None
+            if b == 0:
+                return out
+            out.append(b)
+        return None
+
+    def _ovf(self, E, x, args, f):
+        a, b, o = g1v(args[0]), g1v(args[1]), g1v(args[2])
+        if not (isinstance(a, int) and isinstance(b, int) and isinstance(o, tuple) and o[0] == '&'):
+            return [Outcome(ret=fs(0)), Outcome(ret=fs(1))]
+        return [Outcome(ret=fs(0), sets={o[1]: fs(f(a, b))})]
+
+    def prim___builtin_mul_overflow(self, E, x, args):
+        return self._ovf(E, x, args, lambda a, b: a * b)
+
+    def prim___builtin_add_overflow(self, E, x, args):
+        return self._ovf(E, x, args, lambda a, b: a + b)
+
+    def prim_stralloc_ready(self, E, x, args):
+        sa = g1v(args[0])
+        if not (isinstance(sa, tuple) and sa[0] == '&'):
+            return [Outcome(ret=fs(0)), Outcome(ret=fs(1))]
+        return [Outcome(ret=fs(0)), Outcome(ret=fs(1), sets={sa[1] + '.s': fs(('&', sa[1] + '.s[0]')), '$cap:' + sa[1]: fs(g1v(args[1]))})]
+
+    prim_stralloc_readyplus = prim_stralloc_ready
+
+    def prim_str_rchr(self, E, x, args):
+        s_, c = self.cstr(E, g1v(args[0])), g1v(args[1])
+        if s_ is None or c is None:
+            return [Outcome(ret=TOP)]
+        return [Outcome(ret=fs(len(s_) - 1 - s_[::-1].index(c) if c in s_ else len(s_)))]
+
+    def prim_str_chr(self, E, x, args):
+        s_, c = self.cstr(E, g1v(args[0])), g1v(args[1])
+        if s_ is None or c is None:
+            return [Outcome(ret=TOP)]
+        return [Outcome(ret=fs(s_.index(c) if c in s_ else len(s_)))]
+
+    def prim_byte_rchr(self, E, x, args):
+        p, n, c = g1v(args[0]), g1v(args[1]), g1v(args[2])
+        if not (isinstance(p, tuple) and isinstance(n, int)):
+            return [Outcome(ret=TOP)]
+        bs = self.rd(E, p, n)
+        pos = n
+        for i, b in enumerate(bs):
+            if b == c:
+                pos = i
+        return [Outcome(ret=fs(pos))]
+
+    def prim_str_len(self, E, x, args):
+        s_ = self.cstr(E, g1v(args[0]))
+        return [Outcome(ret=fs(len(s_)) if s_ is not None else TOP)]
+
+    prim_strlen = prim_str_len
+
+    def prim_stralloc_copys(self, E, x, args):
+        sa, src = g1v(args[0]), g1v(args[1])
+        s_ = self.cstr(E, src)
+        if not (isinstance(sa, tuple) and sa[0] == '&') or s_ is None:
+            return [Outcome(ret=fs(0)), Outcome(ret=fs(1))]
+        st = {sa[1] + '.s': fs(('&', sa[1] + '.s[0]')), sa[1] + '.len': fs(len(s_))}
+        for i, b in enumerate(s_):
+            st['%s.s[%d]' % (sa[1], i)] = fs(b)
+        return [Outcome(ret=fs(0)), Outcome(ret=fs(1), sets=st)]
+
+    def on_return(self, E, fn, val):
+        if fn.name == self.entry:
+            self.returns.append((g1v(val) if val is not None else None, dict(E.store), E.trace.list()))
 
 
 def run(ctx):
@@ -76,37 +176,96 @@ def run(ctx):
     if cov != CHARS:
         raise AnalysisBroken('atomok(): partition incomplete')
     r1.check((unq - {ord('.')}) <= atom, 'unquoted-bytes-are-atom-bytes', 'quote.c/token822.c', 'bytes left unquoted by quote_need() but not atom bytes for token822: %s' % [chr(b) for b in sorted(unq - atom - {ord('.')})])
-    # dots are allowed only between atoms: leading, trailing and doubled dots force quoting
-    qn0 = db.fn('quote.c', 'quote_need')
-    dot_rules = 0
-    for x in qn0.all_x():
-        if x.k == 'ret' and x.args and x.args[0].const == 1:
-            if any(c.strip().k == 'bin' and c.strip().op == '==' and c.strip().args[1].const == ord('.') and t is True for c, t in qn0.guards(x) or []):
-                dot_rules += 1
-    r1.check(dot_rules >= 3, 'leading,trailing,doubled-dots-are-quoted', 'quote.c:quote_need', '%d dot rules found' % dot_rules)
+    # quote_need() as a function of the string, for every string of up to 3 bytes over {atom byte, ".", space, quote, byte >= 128}
+    import itertools
+    qn = db.fn('quote.c', 'quote_need')
+    ALPHA = [ord('a'), ord('.'), ord(' '), ord('"'), 0xE9 - 256, -128]
+    badq = []
+    nq = 0
+    for n in (0, 1, 2, 3):
+        for t in itertools.product(ALPHA, repeat=n):
+            H = StrHooks()
+            H.entry = 'quote_need'
+            e = Engine(db, prog, H)
+            fid = e.frame_id(qn)
+            st = {'%s::%s' % (fid, qn.params[0]): fs(('&', 'S[0]')), '%s::%s' % (fid, qn.params[1]): fs(n)}
+            for i_, b_ in enumerate(t):
+                st['S[%d]' % i_] = fs(b_)
+            for b_ in range(128):
+                st['S:quote_c:%s[%d]' % ('ok', b_)] = fs(ok[b_])
+            e.run(qn, st)
+            rep.count_states(e.states, e.transitions)
+            u_ = [b_ & 255 for b_ in t]
+            want = 1 if (n == 0 or any(b_ >= 128 or not ok[b_] for b_ in u_) or u_[0] == 46 or u_[-1] == 46 or any(u_[i_] == 46 and u_[i_ + 1] == 46 for i_ in range(n - 1))) else 0
+            got = sorted({(1 if r_[0] else 0) if isinstance(r_[0], int) else '?' for r_ in H.returns})
+            nq += 1
+            if got != [want]:
+                badq.append((bytes(u_), got, want))
+    r1.check(nq == 259 and not badq, 'quote_need=documented-predicate(empty,non-atom,>=128,leading/trailing/doubled-dot)', 'quote.c:quote_need',
+             'deviations (string, result, documented): %s' % badq[:4])
     smtpd_special = {ord(c) for c in '<> "\\@:'}
     r1.check(not (unq & smtpd_special), 'unquoted-bytes-are-not-special-to-addrparse', 'quote.c/qmail-smtpd.c', 'left unquoted although special to addrparse: %s' % [chr(b) for b in sorted(unq & smtpd_special)])
     r1.check(not any(ok[b] for b in range(0, 33)) and not ok[127], 'controls-and-space-are-quoted', 'quote.c', '')
-    qn = db.fn('quote.c', 'quote_need')
-    hi = False
-    for x in qn.all_x():
-        if x.k == 'ret' and x.args and x.args[0].const == 1:
-            for c, t in qn.guards(x) or []:
-                s = c.strip()
-                if s.k == 'bin' and s.op == '>=' and s.args[1].const == 128 and t is True:
-                    hi = True
-    r1.check(hi, 'bytes>=128-are-quoted', 'quote.c:quote_need', '')
+    # doit(): every byte of the box arrives between the quotes, and quote / backslash are preceded by a backslash
     dt = db.fn('quote.c', 'doit')
-    esc = [x for x in dt.all_x() if x.k == 'asg' and x.args[1].const == ord('\\')]
-    if not esc:
-        raise AnalysisBroken('quote.c doit(): escape store not found')
-    escset = disjunct_consts(dt, dt.pos[esc[0].id][0], lambda v: (v.var or '').startswith('L:ch'))
-    r1.check({ord('"'), ord('\\')} <= escset, 'quoted-string-escapes-cover-quote-and-backslash', 'quote.c:doit', 'doit() escapes %s' % sorted(escset))
+    badd = []
+    nd = 0
+    for b_ in list(range(-128, 128)):
+        H = StrHooks()
+        H.entry = 'doit'
+        e = Engine(db, prog, H)
+        fid = e.frame_id(dt)
+        st = {'%s::%s' % (fid, dt.params[0]): fs(('&', 'OUT')), '%s::%s' % (fid, dt.params[1]): fs(('&', 'IN')),
+              'IN.s': fs(('&', 'IN.s[0]')), 'IN.len': fs(2), 'IN.s[0]': fs(ord('a')), 'IN.s[1]': fs(b_), 'OUT.len': fs(0)}
+        e.run(dt, st)
+        rep.count_states(e.states, e.transitions)
+        okr = [r_ for r_ in H.returns if r_[0] == 1]
+        nd += 1
+        if len(okr) != 1:
+            badd.append((b_ & 255, 'no unique successful return'))
+            continue
+        store = okr[0][1]
+        ln = g1v(store.get('OUT.len'))
+        out = [g1v(store.get('OUT.s[%d]' % i_)) for i_ in range(ln)] if isinstance(ln, int) and 0 <= ln < 16 else None
+        must = b_ in (ord('"'), ord('\\'))
+        alts = [[34, 97, 92, b_, 34]] + ([] if must else [[34, 97, b_, 34]])
+        cap = g1v(store.get('$cap:OUT'))
+        if out not in alts or not (isinstance(cap, int) and cap >= ln):
+            badd.append((b_ & 255, out, cap))
+    r1.check(nd == 256 and not badd, 'quoted-string-escapes-cover-quote-and-backslash', 'quote.c:doit', 'doit("a" + byte) deviates for (byte, output, reserved): %s' % badd[:4])
+    # quote2(): the local part handed to quote() is everything before the LAST @
     q2 = db.fn('quote.c', 'quote2')
-    jdef = [x.args[1].strip() for x in q2.all_x() if x.k == 'asg' and (x.args[0].var or '').startswith('L:j')]
-    r1.check(bool(jdef) and jdef[0].k == 'call' and jdef[0].callee in ('str_rchr', 'byte_rchr', 'strrchr') and jdef[0].args[-1].const == ord('@'), 'quote2-splits-at-the-last-@', 'quote.c:quote2',
-             'the local part is everything before the position found by %s: with the FIRST @ the rest of a local part containing "@" is emitted unquoted' % (jdef[0].callee if jdef and jdef[0].k == 'call' else '?'))
-    r1.expect_min(7)
+
+    class Q2(StrHooks):
+        def prim_quote(self, E, x, args):
+            box = g1v(args[1])
+            ln = g1v(E.get(box[1] + '.len')) if isinstance(box, tuple) else None
+            bs = self.rd(E, ('&', box[1] + '.s[0]'), ln) if isinstance(ln, int) and 0 <= ln < 32 else None
+            self.events.append(('quote', bytes(b & 255 for b in bs).decode('latin1') if bs is not None and None not in bs else None))
+            return [Outcome(ret=fs(0)), Outcome(ret=fs(1))]
+
+        def prim_stralloc_cats(self, E, x, args):
+            s_ = self.cstr(E, g1v(args[1]))
+            self.events.append(('cats', bytes(b & 255 for b in s_).decode('latin1') if s_ is not None else None))
+            return [Outcome(ret=fs(0)), Outcome(ret=fs(1))]
+    badj = []
+    for addr_, loc, dom in (('a@b', 'a', '@b'), ('a@b@c', 'a@b', '@c'), ('ab', 'ab', None), ('@', '', '@'), ('x y@z', 'x y', '@z')):
+        H = Q2()
+        H.entry = 'quote2'
+        e = Engine(db, prog, H)
+        fid = e.frame_id(q2)
+        st = {'%s::%s' % (fid, q2.params[0]): fs(('&', 'OUT')), '%s::%s' % (fid, q2.params[1]): fs(('&', 'A[0]'))}
+        for i_, ch in enumerate(addr_ + '\0'):
+            st['A[%d]' % i_] = fs(ord(ch))
+        e.run(q2, st)
+        rep.count_states(e.states, e.transitions)
+        qs = {ev[1] for ev in H.events if ev[0] == 'quote'}
+        cs = {ev[1] for ev in H.events if ev[0] == 'cats'}
+        if qs != {loc} or cs != ({dom} if dom is not None else set()):
+            badj.append((addr_, sorted(map(str, qs)), sorted(map(str, cs))))
+    r1.check(not badj, 'quote2-splits-at-the-last-@', 'quote.c:quote2',
+             'deviations (address, local part handed to quote(), text appended after it): %s; with the FIRST @ the rest of a local part containing "@" is emitted unquoted' % badj[:3])
+    r1.expect_min(6)
     rep.exhaustive_rules.append('C17.1-character-class-agreement')
 
     # ---------------------------------------------------------------- 1c. two-pass agreement in token822_unparse / unquote
@@ -243,15 +402,67 @@ def run(ctx):
         lists[nm] = sorted(c.args[1].src() for c in f.calls('rwappend'))
     r4.check(lists == {'rwtocc': ['&hrlist', '&tocclist'], 'rwhr': ['&hrlist'], 'rwhrr': ['&hrrlist']}, 'rewriters-feed-the-documented-lists', 'qmail-inject.c', '%s' % lists)
     en = prog.fn('exitnicely', 'qmail-inject.c')
-    tos = en.calls('qmail_to')
-    okr = False
-    for c in tos:
-        src = c.args[1].src()
-        g = en.guards(c) or []
-        if 'hrrlist' in src:
-            okr = any(cc.path() == 'G:flagresent' and t is True for cc, t in g)
-    okn = any('hrlist' in c.args[1].src() and 'hrrlist' not in c.args[1].src() and any(cc.path() == 'G:flagresent' and t is False for cc, t in en.guards(c) or []) for c in tos)
-    r4.check(okr and okn, 'resent-list-iff-flagresent', 'qmail-inject.c:exitnicely', '')
+
+    class EN(QHooks):
+        LISTS = {'G:reciplist': 'RCP', 'G:hrlist': 'HR', 'G:hrrlist': 'HRR', 'G:tocclist': 'TOCC', 'G:savedh': 'SAV'}
+
+        def __init__(self):
+            self.tos = {}
+
+        def tracked_global(self, path):
+            return True
+
+        def precise_arith(self, path):
+            return True
+
+        def materialize(self, E, path):
+            for g_, tag in self.LISTS.items():
+                if path == g_ + '.sa':
+                    return fs(('&', tag + '[0]'))
+                if path == g_ + '.len':
+                    return fs(2)
+            import re
+            mm = re.match(r'^(RCP|HRR|HR|TOCC|SAV)\[(\d+)\]\.s$', path)
+            if mm:
+                return fs(('addr', mm.group(1), int(mm.group(2))))
+            return TOP
+
+        def prim_qmail_to(self, E, x, args):
+            v = g1v(args[1])
+            key = (g1(E, 'G:flagrh'), g1(E, 'G:flagresent'))
+            self.tos.setdefault(key, []).append(v)
+            cur = tuple(g1(E, '$to', ()))
+            E.set('$to', fs(cur + (v,)))
+            return [Outcome(ret=TOP)]
+
+        def prim_qmail_from(self, E, x, args):
+            return [Outcome(ret=TOP)]
+
+        def prim_stralloc_append(self, E, x, args):
+            return [Outcome(ret=fs(1))]
+
+        prim_stralloc_0 = prim_stralloc_append
+
+        def prim_qmail_close(self, E, x, args):
+            key = (g1(E, 'G:flagrh'), g1(E, 'G:flagresent'))
+            self.closed = getattr(self, 'closed', {})
+            self.closed.setdefault(key, set()).add(tuple(g1(E, '$to', ())))
+            return 'noreturn'
+    bad_en = []
+    for frh in (0, 1):
+        for frs in (0, 1):
+            H = EN()
+            e = Engine(db, prog, H)
+            e.run(en, {'G:flagqueue': fs(1), 'G:flagrh': fs(frh), 'G:flagresent': fs(frs)})
+            rep.count_states(e.states, e.transitions)
+            want = [('addr', 'RCP', 0), ('addr', 'RCP', 1)]
+            if frh:
+                want += [('addr', 'HRR' if frs else 'HR', 0), ('addr', 'HRR' if frs else 'HR', 1)]
+            got = getattr(H, 'closed', {}).get((frh, frs))
+            if got != {tuple(want)}:
+                bad_en.append(((frh, frs), sorted(got) if got else got, want))
+    r4.check(not bad_en, 'resent-list-iff-flagresent', 'qmail-inject.c:exitnicely',
+             'envelope recipients at qmail_close() for (flagrh, flagresent): %s (documented: the command-line list, then with -h/-H the Resent- header list if the message is resent, else the To/Cc/Bcc header list)' % bad_en[:2])
     hn = db.unit('hfield.c').globals.get('hname')
     names = [e.get('v') for e in hn['init']['v']] if hn and hn.get('init', {}).get('k') == 'list' else []
     mism = []
